@@ -1,1 +1,276 @@
-(* placeholder *)
+(* Proofs/Aggregate.v : lemmas about Model/Aggregate.v (C15) *)
+From Coq Require Import ZArith QArith Qminmax List String Ascii Bool Lia Lqa.
+From Allfed Require Import Base.StrUtil Model.Tables Model.Aggregate.
+Import ListNotations.
+Open Scope Q_scope.
+Open Scope string_scope.
+
+(* ------------------------------------------------------------------ small facts *)
+
+Lemma str_mem_In s l : str_mem s l = true <-> In s l.
+Proof.
+  unfold str_mem. rewrite existsb_exists. split.
+  - intros [x [Hin He]]. apply String.eqb_eq in He. subst; auto.
+  - intro H; exists s; split; auto. apply String.eqb_refl.
+Qed.
+
+Lemma str_mem_false s l : str_mem s l = false <-> ~ In s l.
+Proof.
+  rewrite <- str_mem_In. destruct (str_mem s l); split; intro H; try congruence; try discriminate;
+    try (exfalso; apply H; reflexivity).
+Qed.
+
+Lemma nodup_b_sound l : nodup_b l = true -> NoDup l.
+Proof.
+  induction l as [|x l IH]; simpl; intro H; [constructor|].
+  apply andb_true_iff in H as [H1 H2]. constructor; auto.
+  apply negb_true_iff in H1. now apply str_mem_false.
+Qed.
+
+Lemma filter_all {A} (f : A -> bool) l : forallb f l = true -> filter f l = l.
+Proof.
+  induction l as [|x l IH]; simpl; auto. intro H. apply andb_true_iff in H as [H1 H2].
+  rewrite H1, IH; auto.
+Qed.
+
+Lemma filter_neg_nonempty {A} (f : A -> bool) l :
+  forallb f l = false -> filter (fun x => negb (f x)) l <> [].
+Proof.
+  induction l as [|x l IH]; simpl; [discriminate|].
+  destruct (f x) eqn:E; simpl; auto. discriminate.
+Qed.
+
+(* ------------------------------------------------------------------ selection *)
+
+Lemma selected_nil c : selected [] c = true.
+Proof. reflexivity. Qed.
+
+Lemma selected_exclusion l c :
+  l <> [] -> forallb has_bang l = true ->
+  selected l c = negb (str_mem c (map strip_bang l)).
+Proof.
+  intros Hne Hall. unfold selected, get_run_skip. destruct l as [|x l]; [congruence|].
+  rewrite Hall, (filter_all _ _ Hall). reflexivity.
+Qed.
+
+Lemma selected_inclusion l c :
+  forallb has_bang l = false ->
+  selected l c = str_mem c (filter (fun c => negb (has_bang c)) l).
+Proof.
+  intro Hf. unfold selected, get_run_skip. destruct l as [|x l]; [discriminate|].
+  rewrite Hf. pose proof (filter_neg_nonempty _ _ Hf) as Hne.
+  destruct (filter (fun c0 => negb (has_bang c0)) (x :: l)) as [|y ys] eqn:E; [congruence|].
+  unfold selected_rs. simpl str_mem at 2. rewrite andb_true_r. reflexivity.
+Qed.
+
+(* "!" in front of a bang-free code *)
+Lemma contains_bang_cons a s :
+  contains "!" (String a s) = (if ascii_dec "!"%char a then true else contains "!" s).
+Proof. cbn [contains prefix]. destruct (ascii_dec "!"%char a); [destruct s; reflexivity|reflexivity]. Qed.
+
+Lemma replace_nobang fuel : forall s,
+  contains "!" s = false -> (String.length s < fuel)%nat -> replace_all_fuel fuel "!" "" s = s.
+Proof.
+  induction fuel as [|fuel IH]; intros s Hc Hl; [lia|].
+  destruct s as [|a s]; [reflexivity|].
+  rewrite contains_bang_cons in Hc.
+  cbn [replace_all_fuel prefix]. destruct (ascii_dec "!"%char a); [discriminate|].
+  f_equal. apply IH; auto. simpl in Hl. lia.
+Qed.
+
+Lemma has_bang_prefixed c : has_bang ("!" ++ c) = true.
+Proof.
+  unfold has_bang. change ("!" ++ c) with (String "!"%char c). rewrite contains_bang_cons.
+  destruct (ascii_dec "!"%char "!"%char); [reflexivity|congruence].
+Qed.
+
+Lemma replace_step_bang fuel s :
+  replace_all_fuel (S fuel) "!" "" (String "!"%char s) = replace_all_fuel fuel "!" "" s.
+Proof.
+  cbn [replace_all_fuel prefix]. destruct (ascii_dec "!"%char "!"%char); [|congruence].
+  destruct s; reflexivity.
+Qed.
+
+Lemma strip_bang_prefixed c : has_bang c = false -> strip_bang ("!" ++ c) = c.
+Proof.
+  intro H. unfold strip_bang, replace_all.
+  change ("!" ++ c) with (String "!"%char c).
+  rewrite replace_step_bang. apply replace_nobang; auto.
+Qed.
+
+Lemma strip_bang_nobang c : has_bang c = false -> strip_bang c = c.
+Proof. intro H. unfold strip_bang, replace_all. apply replace_nobang; auto. Qed.
+
+Definition no_bang (c : string) : Prop := has_bang c = false.
+
+(* the documented syntax: every entry "!"-prefixed -> everything except the named codes *)
+Lemma selected_exclusion_syntax cs c :
+  cs <> [] -> Forall no_bang cs ->
+  selected (map (append "!") cs) c = negb (str_mem c cs).
+Proof.
+  intros Hne Hnb. rewrite selected_exclusion.
+  - f_equal. f_equal. rewrite map_map. induction Hnb as [|x l Hx Hl IH]; simpl; auto.
+    rewrite strip_bang_prefixed by exact Hx. f_equal.
+    destruct l; [reflexivity|]. apply IH. discriminate.
+  - destruct cs; [congruence|discriminate].
+  - clear. induction cs as [|x l IH]; [reflexivity|].
+    change (forallb has_bang (map (append "!") (x :: l))) with
+        (has_bang ("!" ++ x) && forallb has_bang (map (append "!") l)).
+    rewrite has_bang_prefixed, IH. reflexivity.
+Qed.
+
+(* no entry carries a "!" -> exactly the named codes *)
+Lemma selected_inclusion_syntax cs c :
+  cs <> [] -> Forall no_bang cs -> selected cs c = str_mem c cs.
+Proof.
+  intros Hne Hnb. assert (Hf : filter (fun c => negb (has_bang c)) cs = cs).
+  { apply filter_all. apply forallb_forall. intros x Hx. rewrite Forall_forall in Hnb.
+    rewrite (Hnb x Hx). reflexivity. }
+  rewrite selected_inclusion, Hf; auto.
+  destruct cs as [|x l]; [congruence|]. simpl. inversion Hnb; subst.
+  unfold no_bang in *. rewrite H1. reflexivity.
+Qed.
+
+(* mixed: the plain entries are run, the "!" entries are ignored *)
+Lemma selected_mixed plain banged l c :
+  plain <> [] -> Forall no_bang plain -> Forall (fun x => has_bang x = true) banged ->
+  filter (fun c => negb (has_bang c)) l = plain -> forallb has_bang l = false ->
+  selected l c = str_mem c plain.
+Proof. intros _ _ _ Hf Hb. rewrite selected_inclusion, Hf; auto. Qed.
+
+(* ------------------------------------------------------------------ custom parameters *)
+
+Lemma iso3_set_cell k v r : iso3 (set_cell k v r) = iso3 r.
+Proof. reflexivity. Qed.
+
+Lemma iso3_apply_custom opts : forall r, iso3 (apply_custom opts r) = iso3 r.
+Proof.
+  unfold apply_custom. induction opts as [|kv opts IH]; intro r; simpl; auto.
+  rewrite IH. destruct (has_col r (fst kv)); reflexivity.
+Qed.
+
+Lemma agg_step_custom rs opts frac ret a r :
+  agg_step rs opts frac ret a r = agg_step rs [] frac ret a (apply_custom opts r).
+Proof.
+  unfold agg_step. rewrite iso3_apply_custom. reflexivity.
+Qed.
+
+Lemma agg_loop_custom rs opts frac ret rows : forall a,
+  agg_loop rs opts frac ret rows a = agg_loop rs [] frac ret (map (apply_custom opts) rows) a.
+Proof.
+  induction rows as [|r rows IH]; intro a; simpl; auto.
+  rewrite agg_step_custom. destruct (agg_step rs [] frac ret a (apply_custom opts r)); auto.
+Qed.
+
+(* ------------------------------------------------------------------ the loop *)
+
+Lemma cap_min f : cap f == Qmin 1 f.
+Proof.
+  unfold cap. destruct (Qle_bool 1 f) eqn:E.
+  - apply Qle_bool_iff in E. symmetry. apply Q.min_l; auto.
+  - assert (H : ~ 1 <= f) by (intro H; apply Qle_bool_iff in H; congruence).
+    symmetry. apply Q.min_r. lra.
+Qed.
+
+(* rows that contribute: selected, population not NaN, fraction not NaN *)
+Definition counted (rs : list string * list string) (frac : string -> option Q) (r : row) : bool :=
+  selected_rs rs (iso3 r)
+  && (match getq r "population" with Some _ => true | None => false end)
+  && (match frac (iso3 r) with Some _ => true | None => false end).
+
+Lemma agg_loop_ok rs frac ret rows : forall a0,
+  (forall r, In r rows -> selected_rs rs (iso3 r) = true -> verify_ok r = true) ->
+  exists a, agg_loop rs [] frac ret rows a0 = AggOk a /\
+    net_pop a == net_pop a0 + sum_pop (filter (counted rs frac) rows) /\
+    net_fed a == net_fed a0 + sum_fed frac (filter (counted rs frac) rows) /\
+    (ret = true -> NoDup (keys a0 ++ map cname (filter (counted rs frac) rows)) ->
+     keys a = keys a0 ++ map cname (filter (counted rs frac) rows)) /\
+    (ret = false -> keys a = keys a0).
+Proof.
+  induction rows as [|r rows IH]; intros a0 Hv.
+  - exists a0. simpl. repeat split; try lra; intros; now rewrite ?app_nil_r.
+  - assert (Hv' : forall r0, In r0 rows -> selected_rs rs (iso3 r0) = true -> verify_ok r0 = true)
+      by (intros; apply Hv; simpl; auto).
+    cbn [agg_loop]. unfold agg_step. cbn [apply_custom fold_left]. unfold counted at 1 2 3 4. cbn [filter].
+    destruct (selected_rs rs (iso3 r)) eqn:Es; cbn [negb andb].
+    + rewrite (Hv r (or_introl eq_refl) Es). cbn [negb].
+      destruct (getq r "population") as [pop|] eqn:Ep; cbn [andb].
+      * destruct (frac (iso3 r)) as [f|] eqn:Ef.
+        -- match goal with |- context [agg_loop _ _ _ _ rows ?A] => destruct (IH A Hv') as [a [H1 [H2 [H3 [H4 H5]]]]] end.
+           exists a. cbn [net_pop net_fed keys] in *. split; [exact H1|].
+           cbn [sum_pop sum_fed fold_right map]. fold (sum_pop (filter (counted rs frac) rows)).
+           fold (sum_fed frac (filter (counted rs frac) rows)).
+           unfold pop_of at 1 2. rewrite Ep, Ef. cbn [opt0].
+           split; [rewrite H2; ring|]. split; [rewrite H3, cap_min; ring|]. split.
+           ++ intros Hr Hnd. subst ret. unfold dict_add in H4.
+              assert (Hni : str_mem (cname r) (keys a0) = false).
+              { apply str_mem_false. intro Hin. apply NoDup_remove_2 in Hnd. apply Hnd.
+                apply in_or_app; left; exact Hin. }
+              rewrite Hni in H4. rewrite H4; auto.
+              ** rewrite <- app_assoc. reflexivity.
+              ** rewrite <- app_assoc. exact Hnd.
+           ++ intros Hr. subst ret. apply H5; reflexivity.
+        -- match goal with |- context [agg_loop _ _ _ _ rows ?A] => destruct (IH A Hv') as [a [H1 [H2 [H3 [H4 H5]]]]] end.
+           exists a. cbn [net_pop net_fed keys] in *. auto.
+      * destruct (IH a0 Hv') as [a [H1 [H2 [H3 [H4 H5]]]]]. exists a. auto.
+    + destruct (IH a0 Hv') as [a [H1 [H2 [H3 [H4 H5]]]]]. exists a. auto.
+Qed.
+
+(* rejection: a selected row that fails verify_country_data aborts the run *)
+Lemma agg_loop_rejects rs frac ret rows : forall a0,
+  existsb (fun r => selected_rs rs (iso3 r) && negb (verify_ok r)) rows = true ->
+  agg_loop rs [] frac ret rows a0 = AggRejected.
+Proof.
+  induction rows as [|r rows IH]; intros a0 H; [discriminate|].
+  cbn [agg_loop]. unfold agg_step. cbn [apply_custom fold_left].
+  cbn [existsb] in H. destruct (selected_rs rs (iso3 r)) eqn:Es; cbn [negb andb] in *.
+  - destruct (verify_ok r) eqn:Ev; cbn [negb orb] in *; [|reflexivity].
+    destruct (getq r "population"); [destruct (frac (iso3 r))|]; apply IH; exact H.
+  - apply IH; exact H.
+Qed.
+
+(* ------------------------------------------------------------------ range *)
+
+Lemma sums_range frac rows :
+  (forall r, In r rows -> 0 <= pop_of r) ->
+  (forall r, In r rows -> 0 <= opt0 (frac (iso3 r))) ->
+  0 <= sum_fed frac rows /\ sum_fed frac rows <= sum_pop rows.
+Proof.
+  induction rows as [|r rows IH]; intros Hp Hf; simpl; [lra|].
+  destruct IH as [I1 I2]; [intros; apply Hp; simpl; auto|intros; apply Hf; simpl; auto|].
+  assert (P : 0 <= pop_of r) by (apply Hp; simpl; auto).
+  assert (F : 0 <= opt0 (frac (iso3 r))) by (apply Hf; simpl; auto).
+  set (m := Qmin 1 (opt0 (frac (iso3 r)))).
+  assert (M1 : m <= 1) by apply Q.le_min_l.
+  assert (M0 : 0 <= m) by (apply Q.min_glb; lra).
+  split; nra.
+Qed.
+
+Lemma ratio_range a b : 0 <= a -> a <= b -> 0 < b -> 0 <= a / b /\ a / b <= 1.
+Proof.
+  intros Ha Hab Hb. split.
+  - apply Qle_shift_div_l; lra.
+  - apply Qle_shift_div_r; lra.
+Qed.
+
+Lemma sum_pop_pos rows :
+  (forall r, In r rows -> 0 < pop_of r) -> rows <> [] -> 0 < sum_pop rows.
+Proof.
+  induction rows as [|r rows IH]; intros Hp Hne; [congruence|]. simpl.
+  assert (0 < pop_of r) by (apply Hp; simpl; auto).
+  destruct rows as [|r' rows']; [simpl; lra|].
+  assert (0 < sum_pop (r' :: rows')) by (apply IH; [intros; apply Hp; simpl; auto|discriminate]). lra.
+Qed.
+
+(* ------------------------------------------------------------------ each once *)
+
+Lemma NoDup_map_filter {A B} (f : A -> B) (p : A -> bool) l : NoDup (map f l) -> NoDup (map f (filter p l)).
+Proof.
+  induction l as [|x l IH]; simpl; intro H; [constructor|].
+  inversion H; subst. destruct (p x); simpl; auto. constructor; auto.
+  intro Hin. apply H2. apply in_map_iff in Hin as [y [Hy Hin]]. apply filter_In in Hin as [Hin _].
+  apply in_map_iff. exists y; auto.
+Qed.
+
+Lemma count_once (codes : list string) c : NoDup codes -> In c codes -> count_occ string_dec codes c = 1%nat.
+Proof. intros Hn Hi. apply NoDup_count_occ'; auto. Qed.
